@@ -964,3 +964,69 @@ Proof.
     + apply IH.
     + cbn [fst snd]. split; [discriminate|exact Hpre].
 Qed.
+
+(* ---- the generated source facts (coq/Gen/C01_gen.v, regenerated from paramiko on every run) are what
+        the model uses ---------------------------------------------------------------------- *)
+From PV Require Import C01_gen.
+
+Lemma source_tables :
+  forallb (fun c => let '(bs, ks, iv, aead) := c in
+             (8 <=? bs) && (if aead : bool then iv =? g1_iv_fixed + g1_iv_ctr else iv =? bs)) g1_ciphers = true /\
+  forallb (fun m => let '(sz, dg, etm) := m in (0 <? sz) && (sz <=? dg)) g1_macs = true /\
+  existsb (fun c => negb (fst c)) g1_compressions = true /\
+  g1_aead_mac_size = 16 /\
+  (g1_init_bs_out, g1_init_bs_in, g1_init_msz_out, g1_init_msz_in, g1_init_seq_out, g1_init_seq_in) = (8, 8, 0, 0, 0, 0).
+Proof. vm_compute. repeat split; reflexivity. Qed.
+
+Lemma source_seq : forall q kex,
+  g1_seq_next_out q = (q + 1) mod 2 ^ 32 /\ g1_seq_next_in q = (q + 1) mod 2 ^ 32 /\
+  g1_rollover_out (g1_seq_next_out q) kex = rollover q kex /\
+  g1_rollover_in (g1_seq_next_in q) kex = rollover q kex.
+Proof.
+  intros q kex.
+  assert (E : forall x, Z.land (x + 1) g1_seq_mask = (x + 1) mod 2 ^ 32).
+  { intros x. change g1_seq_mask with (Z.ones 32). apply Z.land_ones. lia. }
+  unfold g1_seq_next_out, g1_seq_next_in, g1_rollover_out, g1_rollover_in, rollover. rewrite !E. auto.
+Qed.
+
+Lemma source_inc_iv : forall iv,
+  inc_iv iv =
+  (let c := be_decode (skipn (Z.to_nat g1_iv_fixed) iv) + g1_iv_step in
+   if c <? 2 ^ (8 * g1_iv_ctr) then Ok (firstn (Z.to_nat g1_iv_fixed) iv ++ be_encode (Z.to_nat g1_iv_ctr) c)
+   else Raise (LibExc 2)).
+Proof. reflexivity. Qed.
+
+(* the read sizes, blocking test and payload slice of read_message are those of the model's read_body *)
+Lemma source_read_sizes : forall ps bs msz lo padding,
+  g1_etm_remaining ps bs = ps - bs + 4 /\ g1_aead_remaining ps bs msz = ps - bs + 4 + msz /\
+  g1_classic_read ps msz lo = ps + msz - lo /\ g1_block_check ps lo bs = negb ((ps - lo) mod bs =? 0) /\
+  g1_payload_start = 1 /\ g1_payload_end ps padding = ps - padding.
+Proof. intros. repeat split; reflexivity. Qed.
+
+(* read_all: loop test and the need-rekey guard are the model's read_all_t *)
+Lemma source_read_all : forall n out ck nr rest,
+  read_all_t n out ck nr (STimeout :: rest) =
+  if negb (g1_read_continue n) then RAok out (STimeout :: rest)
+  else if g1_rekey_cond ck (zlen out) nr then RArekey rest
+  else read_all_t n out ck nr rest.
+Proof.
+  intros. cbn [read_all_t]. unfold g1_read_continue, g1_rekey_cond. rewrite Z.gtb_ltb.
+  replace (negb (0 <? n)) with (n <=? 0) by (destruct (n <=? 0) eqn:A, (0 <? n) eqn:B; try reflexivity; lia).
+  destruct (n <=? 0); [reflexivity|].
+  replace (zlen out =? 0) with (Nat.eqb (length out) 0) by (destruct out; reflexivity).
+  reflexivity.
+Qed.
+
+(* write_all: zero-return rule, failure test, completion test and the retry value are the model's *)
+Lemma source_write_all : forall k iters o out' rest written,
+  write_all (o :: out') iters (WSend k :: rest) written =
+  (if g1_write_zero_abort k iters || g1_write_fail k then (written, false)
+   else if g1_write_done k (zlen (o :: out')) then (written ++ o :: out', true)
+   else let n := Z.to_nat (Z.min k (zlen (o :: out'))) in
+        write_all (skipn n (o :: out')) (iters + 1) rest (written ++ firstn n (o :: out'))) /\
+  g1_write_retry_n = 0 /\ g1_write_continue (zlen (o :: out')) = true.
+Proof.
+  intros. split; [|split; [reflexivity|]].
+  - cbn [write_all]. unfold g1_write_zero_abort, g1_write_fail, g1_write_done. rewrite Z.gtb_ltb. reflexivity.
+  - unfold g1_write_continue. rewrite Z.gtb_ltb, zlen_cons. pose proof (zlen_nonneg out'). lia.
+Qed.
